@@ -551,7 +551,15 @@ pre_type(struct emu *emu)
 		return -1;
 	}
 
+	/* The jumbo data holds the type id and a nil terminated label */
+	uint32_t jumbo_size = emu->ev->payload->jumbo.size;
 	const uint8_t *data = &emu->ev->payload->jumbo.data[0];
+
+	if (jumbo_size < 5 || data[jumbo_size - 1] != '\0') {
+		err("malformed jumbo data in task type event");
+		return -1;
+	}
+
 	uint32_t typeid;
 	memcpy(&typeid, data, 4); /* May be unaligned */
 	data += 4;
